@@ -26,6 +26,7 @@ func genCmpCase(rt *rapid.T, prop, op string, d DT, form, via, mode string, same
 		c.B = &b
 	} else {
 		c.Scalar = genCodes(rt, 1, -2, 3, 12, "s")[0]
+		c.ScT = via == "pkg" && rapid.IntRange(0, 3).Draw(rt, "sct") == 0
 	}
 	if mode == "reuse" {
 		dd := dtBool
